@@ -222,6 +222,41 @@ def h_two_switches(ctx, pool2):
   ctx.witness('done')
 
 
+def h_rewritten_miss(ctx, pool):
+  """a frame handed to the switch in a packet_out is rewritten (an 802.1Q tag is pushed) and sent to the table, where it misses: the
+  packet-in - and the buffer behind its id - describe the frame as it is now: true total length, data a prefix of the stored frame"""
+  env.get_core()
+  of = ctx.pox('pox.openflow.libopenflow_01'); swm = ctx.pox('pox.datapaths.switch'); pkt = ctx.pox('pox.lib.packet')
+  sw = swm.SoftwareSwitch(dpid=1, ports=4, miss_send_len=ctx.int('miss_send_len', 0, 40), max_buffers=pool)
+  sent = []
+  class Conn:
+    def send(c, msg): sent.append(msg)
+    def set_message_handler(c, h): pass
+  sw.set_connection(Conn())
+  outs = []
+  sw.addListenerByName('DpPacketOut', lambda e: outs.append((e.port.port_no, e.packet.pack())))
+  pay = list(ctx.bytes('pay', 8)); vid = ctx.int('vid', 0, 4095)
+  raw = env.tobytes(ctx, [2, 0, 0, 0, 0, 9, 2, 0, 0, 0, 0, 1, 0x08, 0x01] + pay)
+  tagged = env.tobytes(ctx, [2, 0, 0, 0, 0, 9, 2, 0, 0, 0, 0, 1, 0x81, 0x00, vid >> 8, vid & 255, 0x08, 0x01] + pay)
+  po = of.ofp_packet_out(in_port=1, data=raw, actions=[of.ofp_action_vlan_vid(vlan_vid=vid), of.ofp_action_output(port=of.OFPP_TABLE)])
+  sw.rx_message(sw._connection, of.ofp_packet_out.unpack_new(po.pack())[1])
+  pis = [m for m in sent if isinstance(m, of.ofp_packet_in)]
+  ctx.check('the rewritten frame misses the empty table: one packet-in, nothing emitted', len(pis) == 1 and outs == [])
+  if len(pis) != 1: return
+  _, pi = of.ofp_packet_in.unpack_new(pis[0].pack())
+  ctx.check('total_len is the length of the frame as it is now', pi.total_len == len(tagged))
+  ctx.check('data is a prefix of the frame as it is now', len(pi.data) <= len(tagged) and ctx.Eq(pi.data, tagged[:len(pi.data)]))
+  if pool == 0:
+    ctx.check('no buffer: no id, the whole frame', pi.buffer_id is None and len(pi.data) == len(tagged))
+  else:
+    ctx.check('a buffer id is handed out', pi.buffer_id is not None)
+    if pi.buffer_id is not None:
+      del sent[:]
+      sw.rx_message(sw._connection, of.ofp_packet_out.unpack_new(of.ofp_packet_out(buffer_id=pi.buffer_id, in_port=0xffff, actions=[of.ofp_action_output(port=3)]).pack())[1])
+      ctx.check('using the id emits exactly the frame the packet-in described', len(outs) == 1 and outs[0][0] == 3 and ctx.Eq(outs[0][1], tagged))
+  ctx.witness('done')
+
+
 def obligations(tier):
   thorough = tier != 'quick'
   plans = PLANS_T + (['mmmPP', 'mcPmF', 'mPmPm', 'SmcPF', 'mmFPm', 'cmPPm'] if thorough else [])
@@ -233,6 +268,8 @@ def obligations(tier):
                       "P=packet_out(symbolic buffer id 0..5 or none+data; output or empty action list), F=flow_mod(symbolic buffer id or none; output or empty action list), S=set_config(symbolic miss_send_len)")
   return [Obligation('O1_history', h_history, cases, witnesses=('done', 'buffered', 'pool-full', 'released', 'stale', 'dropped'), max_decisions=20000,
                      desc='buffer pool vs reference over symbolic histories'),
+          Obligation('O5_rewritten_miss', h_rewritten_miss, [dict(pool=k) for k in (0, 1)], witnesses=('done',),
+                     desc='a packet_out frame rewritten (tag pushed) and sent to the table where it misses: packet-in and buffer describe the rewritten frame'),
           Obligation('O4_bounce', h_history, bounce, witnesses=('done', 'bounced', 'released'), max_decisions=20000,
                      desc='a buffered packet sent to the controller again (packet_out / flow_mod with output:CONTROLLER): the new packet-in carries an id that really holds it'),
           Obligation('O3_two_switches', h_two_switches, [dict(pool2=k) for k in (0, 1, 2)], witnesses=('done', 'foreign-id', 'same-number'),
